@@ -27,20 +27,24 @@ TRUSTED = ["Python str.strip/split/splitlines/partition/ljust and dict order are
            "msgpack and the BinaryCIF column encodings are outside this property (C05)"]
 ASSUMPTIONS = ["values are strings over printable ASCII, tab and newline; names follow the CIF name grammar "
                "(no blank, no '.', no quote); container keys include leading/inner/trailing/double underscores"]
-LEVEL_TEXT = ("Lean theorems, all for unbounded inputs: C06_table_looped and C06_table_single prove "
-              "CIFCategory.deserialize(serialize(t)) = t as ONE statement for every rectangular table of single-line values "
-              "(blanks, tabs, either quote character, every special first character / reserved word, empty strings; names without "
-              "blank, '.', quote) and C06_table_masks adds the '.'/'?' mask states; built from C06_token, C06_row (no SafeHead "
-              "hypothesis after the _escape fixes), C06_row_written, C06_looped_lines. C06_gen_escape / C06_special_heads_quoted "
-              "tie the quoting decision and every reader first-character test to the tables regenerated from cif.py. "
-              "C06_container_refines, C06_container_eq_refines, C06_get_parses: every history of mapping operations incl. == on the "
-              "lazily parsed containers refines a plain association list; C06_rowcount_not_stale: the cached row count never "
-              "goes stale (after two fix: commits); C06_reads_pure: reads (as_array flavours, data, get/contains/iter/len) never change a column or a store; C06_container_refines_prefixed / C06_binary_block_refines: BinaryCIFBlock's '_' key "
-              "prefix (stored key '_'+name, iteration removes exactly one prefix, after a fix: commit) refines the same mapping for every name. Partial: multi-line values and single-line values with both quote characters "
-              "only under explicit line hypotheses (C06_multiline_partial, C06_both_quotes_partial, at the category reader's "
-              "token pipeline; each excluded class has a _defect witness and is a known finding). Not a theorem: block/file cutting "
-              "(CIFBlock/CIFFile.deserialize), rows that mix multi-line values with others - "
-              "covered by the correspondence (text compared byte for byte, parse result cell for cell) and the dict/round-trip oracle.")
+LEVEL_TEXT = ("Lean theorems, all for unbounded inputs. C06_file_roundtrip / C06_block_roundtrip: a file of blocks of categories of "
+              "rectangular tables of single-line values (blanks, tabs, either quote character, every special first character / "
+              "reserved word, empty strings, '.'/'?'; names without blank, '.', quote; distinct names) serialises to text that "
+              "CIFFile.deserialize -> CIFBlock.deserialize -> CIFCategory.deserialize parse back to the same nested mapping; composed "
+              "from C06_table_looped / C06_table_single (one statement per category), C06_written_lines_safe (no written line can be "
+              "misread as a data_/loop_/category boundary, comment or blank - line-start safety lifted from tokens to lines, first "
+              "loop column and single-row lines included), C06_token, C06_row, C06_row_written, C06_looped_lines; C06_table_masks adds "
+              "the mask states. C06_gen_escape / C06_special_heads_quoted tie the quoting decision and every reader first-character "
+              "test to tables regenerated from cif.py. Containers: C06_container_refines, C06_container_eq_refines, C06_get_parses "
+              "(every history incl. == on lazily parsed containers refines a plain mapping), C06_lazy_file_refines / C06_lazy_get "
+              "(the file held as text of blocks of text of categories means the fully parsed nested mapping; file[b][c] through two "
+              "lazy steps is the nested look-up), C06_container_refines_prefixed / C06_binary_block_refines (BinaryCIFBlock '_' key "
+              "prefix), C06_rowcount_not_stale, C06_reads_pure. Partial: multi-line values and single-line values with both quote "
+              "characters under explicit line hypotheses (C06_multiline_partial, C06_both_quotes_partial; excluded classes have "
+              "_defect witnesses and are known findings); rows mixing multi-line and ordinary values from the reader's cleaned lines "
+              "on (C06_mixed_row_partial: _to_single + tokeniser; that the written text of such a row has those lines is "
+              "correspondence only). Everything is also exercised against the real code op by op (text compared byte for byte) "
+              "and by the round-trip / dict oracles.")
 LEVEL_NOTE = "text model over List Char; Python string library and numpy modelled, not verified; BinaryCIF key prefix not modelled"
 TECHNIQUE = "Lean 4 proof (induction over rows/tokens/histories, refinement) + Gen tables from ast + correspondence"
 
@@ -779,8 +783,15 @@ def cases(rng, tier):
     for _ in range(400 if quick else 8000):
         t = foreign_text(rng)
         tc = foreign_text(rng, header=False, max_cats=1)
-        yield {"kind": "reader", "ops": [f"parsefile {enc(t)}", f"parseblock {enc(t)}", f"parsecat {enc(tc)}",
-                                         f"parseblock {enc(tc)}"]}
+        ops = [f"parsefile {enc(t)}", f"parseblock {enc(t)}", f"parsecat {enc(tc)}", f"parseblock {enc(tc)}"]
+        # file[b][c] through the two lazy steps, for names that occur in the text and names that do not
+        bnames = [ln[5:] for ln in t.split("\n") if ln.startswith("data_")] + ["zz"]
+        cnames = [ln[1:ln.find(".")] for ln in t.split("\n") if ln.startswith("_") and "." in ln] + ["nope"]
+        for _ in range(2):
+            b, c = rng.choice(bnames), rng.choice(cnames)
+            if all(ord(ch) < 256 for ch in b + c):
+                ops.append(f"lazyget {enc(t)} {enc(b)} {enc(c)}")
+        yield {"kind": "reader", "ops": ops}
     # 5b. category writer alone (error branches: ragged columns)
     for _ in range(40 if quick else 800):
         k = rng.randint(0, 3)
@@ -1019,6 +1030,10 @@ def run_impl(case):
                             cs.append(_optname(cn) + ":!")
                     bs.append(enc(bn) + "@" + ("_" if not cs else "/".join(cs)))
                 out.append("ok " + ("_" if not bs else "|".join(bs)))
+            elif w[0] == "lazyget":
+                f = pdbx.CIFFile.deserialize(dec(w[1]))
+                cat = f[dec(w[2])][None if w[3] == "~" else dec(w[3])]
+                out.append("ok " + _show_cat(cat))
             elif w[0] == "colnew":
                 colflav = w[1]
                 col, coldata = _mk_col(colflav, dec_list(w[2]), [int(c) for c in w[3]])
